@@ -101,35 +101,57 @@ let show_rtok t = match t with
   | RKn n -> "K" ^ string_of_int (int_of_z n)
 let show_out ((t, a), b) = show_rtok t ^ "|" ^ show_dump a ^ "|" ^ show_dump b
 
-let kind_no k = match k with "axis" -> 0 | "line" -> 1 | "text" -> 2 | "graph" -> 3 | "world" -> 4 | _ -> failwith ("kind " ^ k)
+let kind_index k = match k with "axis" -> 0 | "line" -> 1 | "text" -> 2 | "graph" -> 3 | "world" -> 4 | _ -> failwith ("kind " ^ k)
 
 let show_col c = Printf.sprintf "%02x%02x%02x%02x" (int_of_n c.c_a) (int_of_n c.c_r) (int_of_n c.c_g) (int_of_n c.c_b)
+
+(* specification side *)
+let show_sent e = cstring e.se_name ^ "=" ^ show_val TStr e.se_val ^ (if e.se_diff then "*" else "")
+let show_sdump l = String.concat "," (List.map show_sent l)
+let show_stok t = match t with
+  | TK -> "K"
+  | TR -> "R"
+  | TG e -> "G:" ^ show_sent e
+  | TKn n -> "K" ^ string_of_int (int_of_z n)
+let show_sout ((t, a), b) = show_stok t ^ "|" ^ show_sdump a ^ "|" ^ show_sdump b
 
 let () =
   let ic = open_in Sys.argv.(1) in
   List.iter (fun line ->
     match split_ws line with
     | id :: impl :: "pm" :: mlen :: m :: names ->
-      let r = (match parse_name m with
-        | None -> -1
-        | Some mb -> int_of_z (property_match mb (z_of_int (int_of_string mlen)) (List.map unhex names) Z0)) in
-      let t = if r < 0 then "E" ^ string_of_int (-r) else "M" ^ string_of_int r in
-      Printf.printf "M %s %s\n" id t;
-      Printf.printf "S %s %s\n" id (C20spec.spec_pm m mlen names)
+      let ml = z_of_int (int_of_string mlen) and nb = List.map unhex names in
+      let r = (match parse_name m with None -> -1 | Some mb -> int_of_z (property_match mb ml nb Z0)) in
+      Printf.printf "M %s %s\n" id (if r < 0 then "E" ^ string_of_int (-r) else "M" ^ string_of_int r);
+      let sr = (match parse_name m with None -> None | Some mb -> spec_match mb ml nb) in
+      Printf.printf "S %s %s\n" id (match sr with None -> "R" | Some i -> "M" ^ string_of_int (int_of_nat i))
     | id :: impl :: "col" :: txt :: _ ->
       let t = parse_name txt in
-      let toks = (match color_parse t with
-        | None -> ["E|11223344"; "qE"] @ (if impl = "x" then ["p:23323233333434|ff223344"] else [])
+      let toks dec = (match dec with
+        | None -> ["E|11223344"; "qE"]
         | Some c ->
-          let consumed = (match t with None | Some [] -> 0 | Some (h :: r) -> C20spec.consumed (h :: r)) in
           let printed = color_print c in
           let again = (match color_parse (Some printed) with None -> "E" | Some d -> show_col d) in
-          [Printf.sprintf "K%d|%s" consumed (show_col c); "qK"] @ (if impl = "x" then ["p:" ^ hexs printed ^ "|" ^ again] else [])) in
-      Printf.printf "M %s %s\n" id (String.concat " " toks);
-      Printf.printf "S %s %s\n" id (String.concat " " (C20spec.spec_col impl t toks))
+          ["K|" ^ show_col c; "qK"] @ (if impl = "x" then ["p:" ^ hexs printed ^ "|" ^ again] else [])) in
+      let m = color_parse t in
+      Printf.printf "M %s %s\n" id (String.concat " " (toks m));
+      (* the strict grammar is binding; other text is accepted or refused as the parser decides, but an accepted
+         colour must survive print + parse *)
+      let strict = (match t with
+        | None | Some [] -> Some { c_a = n_of_int 255; c_r = N0; c_g = N0; c_b = N0 }
+        | Some b -> (match spec_colour_strict b with
+                     | Some (((a, r), g), bl) -> Some { c_a = a; c_r = r; c_g = g; c_b = bl }
+                     | None -> m)) in
+      let stoks = (match strict with
+        | None -> ["R|11223344"; "qR"]
+        | Some c -> ["K|" ^ show_col c; "qK"] @ (if impl = "x" then ["p:" ^ hexs (color_print c) ^ "|" ^ show_col c] else [])) in
+      Printf.printf "S %s %s\n" id (String.concat " " stoks)
     | id :: impl :: kind :: ops ->
-      let o = default_of (n_of_int (kind_no kind)) in
+      let kn = n_of_int (kind_index kind) in
+      let o = default_of kn in
       let ops = parse_ops ops in
       Printf.printf "M %s %s Z\n" id (String.concat " " (List.map show_out (mrun (o, o) ops)));
-      Printf.printf "S %s %s Z\n" id (String.concat " " (C20spec.run kind ops))
+      let sk = kind_no kn in
+      let d = defaults sk in
+      Printf.printf "S %s %s Z\n" id (String.concat " " (List.map show_sout (srun sk (d, d) ops)))
     | _ -> ()) (read_lines ic)
